@@ -123,7 +123,7 @@ theorem zinv_fstep {a : Nat} {fs : FState} (h : ZInv a fs) (op : FOp) : ZInv a (
     · rw [if_neg e]; exact zinv_env ph (envOK_api a st o e) h
   | monRecheck g b => exact zinv_env ph (envOK_of_same (same_monitorRecheck st g b)) h
   | monScopeRecheck s b => exact zinv_env ph (envOK_of_same (same_monitorScopeRecheck st s b)) h
-  | joinClean as => exact zinv_env ph (envOK_of_same (same_joinCleanup st as)) h
+  | joinClean s g as => exact zinv_env ph (envOK_of_same (same_joinCleanup st s g as)) h
   | mark =>
     cases ph with
     | live =>
